@@ -80,6 +80,7 @@ func run(c *vf.Ctx) {
 	uuidV8(c, V)
 	guidAll(c, V)
 	guidFields(c)
+	refusedSetters(c)
 	reusedReceivers(c, V)
 	trailingBytes(c, V)
 }
@@ -368,6 +369,47 @@ func timeLattice() []time.Time {
 	return out
 }
 
+// wideTimes: instants outside 1970..2200 that a version-1 timestamp can still carry (1582-10-15 up to
+// 2^60-1 ticks, year 5236), in particular BEFORE 1970 with a sub-second part that is not a whole
+// number of 100 ns ticks (floor vs truncation), and both ends of the range int64 nanoseconds can express.
+func wideTimes() []time.Time {
+	var out []time.Time
+	for _, d := range []time.Time{
+		time.Date(1582, 10, 15, 0, 0, 0, 0, time.UTC),
+		time.Date(1582, 10, 15, 0, 0, 1, 0, time.UTC),
+		time.Date(1600, 1, 1, 0, 0, 0, 0, time.UTC),
+		time.Date(1677, 9, 21, 0, 12, 43, 145224192, time.UTC), // smallest UnixNano
+		time.Date(1677, 9, 21, 0, 12, 43, 0, time.UTC),
+		time.Date(1677, 12, 31, 23, 59, 59, 999999999, time.UTC),
+		time.Date(1678, 1, 1, 0, 0, 0, 0, time.UTC),
+		time.Date(1900, 1, 1, 0, 0, 0, 0, time.UTC),
+		time.Date(1969, 12, 31, 23, 59, 59, 0, time.UTC),
+		time.Date(1970, 1, 1, 0, 0, 0, 0, time.UTC),
+		time.Date(2200, 1, 1, 0, 0, 0, 0, time.UTC),
+		time.Date(2261, 12, 31, 23, 59, 59, 0, time.UTC),
+		time.Date(2262, 1, 1, 0, 0, 0, 0, time.UTC),
+		time.Date(2262, 4, 11, 23, 47, 16, 854775807, time.UTC), // largest UnixNano
+		time.Date(2262, 4, 12, 0, 0, 0, 0, time.UTC),
+		time.Date(3000, 1, 1, 0, 0, 0, 0, time.UTC),
+		time.Date(5236, 3, 31, 21, 20, 59, 0, time.UTC), // the last whole seconds below 2^60 ticks
+		time.Date(5236, 3, 31, 21, 21, 0, 0, time.UTC),
+	} {
+		for _, ns := range []int{0, 1, 49, 50, 99, 100, 101, 999999899, 999999900, 999999950, 999999999} {
+			t := d.Add(time.Duration(ns))
+			if !t.Before(time.Date(1582, 10, 15, 0, 0, 0, 0, time.UTC)) && ref.V1Ticks(t) < 1<<60 {
+				out = append(out, t)
+			}
+		}
+	}
+	// before 1970: -2^k ns and neighbours
+	for _, v := range enum.Pow2(62) {
+		for _, d := range []int64{-101, -100, -99, -50, -1, 0, 1, 50} {
+			out = append(out, time.Unix(0, -int64(v)+d).UTC())
+		}
+	}
+	return out
+}
+
 func nodeLattice() [][6]byte {
 	var out [][6]byte
 	for _, bg := range []byte{0, 0xff} {
@@ -389,7 +431,7 @@ type v1case struct {
 }
 
 func uuidV1Setters(c *vf.Ctx) {
-	times := timeLattice()
+	times := append(timeLattice(), wideTimes()...)
 	nodes := nodeLattice()
 	c.Set("v1_time_lattice", len(times))
 	bgs := []v1case{
